@@ -735,7 +735,8 @@ func writeSwitchCaseOverUnion(w *formatting.IndentedWriter, unionType *dsl.Gener
 }
 
 func typeConversionCallable(t dsl.Type) string {
-	switch t := t.(type) {
+	// `x as MyInt` with `MyInt: int` converts to the aliased primitive
+	switch t := dsl.GetUnderlyingType(t).(type) {
 	case *dsl.SimpleType:
 		switch t := t.ResolvedDefinition.(type) {
 		case dsl.PrimitiveDefinition:
